@@ -300,6 +300,7 @@ impl EngA {
 
     /// C01 oracle for one (program, deviation set). Returns the evaluation for reuse.
     pub fn check_c01(&self, prog: &Prog, devs: &[Dev], sink: &Sink, c: &ACounters, base_key: Option<&(String, Bits)>) -> Option<(String, Bits)> {
+        crate::report::beat();
         let text = render(prog, devs);
         c.programs.fetch_add(1, AO::Relaxed);
         if !devs.is_empty() {
@@ -915,6 +916,7 @@ impl EngA {
 
     /// metamorphic C02 clauses for the ordered pair (a, b); `lists` = both are hyphen-free comparator lists
     pub fn check_c02(&self, a: &Side, b: &Side, lists: bool, sink: &Sink, c: &ACounters) {
+        crate::report::beat();
         c.pairs.fetch_add(1, AO::Relaxed);
         let u = &self.u;
         let case = |kind: &str| json!({"engine":"A","kind":kind,"a":a.text,"b":b.text,"lists":lists,"tier":self.tier});
@@ -1071,6 +1073,7 @@ impl EngA {
     }
 
     pub fn check_misc_kind(&self, prop: &str, prog: &Prog, devs: &[Dev], sink: &Sink, c: &ACounters, kind: &str) {
+        crate::report::beat();
         let u = &self.u;
         let text = render(prog, devs);
         c.programs.fetch_add(1, AO::Relaxed);
